@@ -144,3 +144,88 @@ def space(archetype_src, low=12, high=0, tag="arch"):
             res["classes"].setdefault(item, {}).setdefault(kind, []).append(
                 {"hash": h, "count": count, "rep": rep, "text": text})
     return res
+
+
+# ------------------------------------------------------------------ token-level conformance (DESIGN.md §12.6)
+
+_nightly = {}
+
+
+def nightly_dylib():
+    """/repo's derive built by the nightly toolchain (needed by `rustc +nightly -Zunpretty=expanded`)."""
+    if "so" in _nightly:
+        return _nightly["so"]
+    import json as _json
+    import e2
+    e2.build_anchor()
+    adir = os.path.join(VERIF, "engines", "anchor") if REPO == "/repo" else os.path.join(WORK, "anchor-alt")
+    tdir = os.path.join(TARGET, "anchor-nightly")
+    p = run(["cargo", "+nightly", "build", "--offline", "--target-dir", tdir, "--message-format=json"], cwd=adir)
+    so = None
+    for line in p.stdout.decode(errors="replace").splitlines():
+        try:
+            m = _json.loads(line)
+        except Exception:
+            continue
+        if m.get("reason") == "compiler-artifact" and m.get("target", {}).get("name") in ("enum_tools", "enum-tools"):
+            for f in m.get("filenames", []):
+                if f.endswith(".so"):
+                    so = f
+    if p.returncode != 0 or so is None:
+        raise MachineryError("nightly build of the derive failed: " + p.stderr.decode(errors="replace")[-2000:])
+    _nightly["so"] = so
+    return so
+
+
+def real_expansion(decl_text):
+    """The derive's output as produced inside rustc (nightly, -Zunpretty=expanded) for
+    `decl_text` = attributes + enum (without a derive attribute). Returns text or raises."""
+    so = nightly_dylib()
+    d = os.path.join(WORK, "e1", "unpretty-%d-%d" % (os.getpid(), abs(hash(decl_text)) % 10**9))
+    os.makedirs(d, exist_ok=True)
+    src = os.path.join(d, "case.rs")
+    with open(src, "w") as f:
+        f.write("use enum_tools::EnumTools;\n#[derive(EnumTools)]\n" + decl_text + "\n")
+    p = subprocess.run(["rustc", "+nightly", "--edition", "2021", "-Zunpretty=expanded", "--crate-type", "lib", "--extern", "enum_tools=" + so, src],
+                       stdout=subprocess.PIPE, stderr=subprocess.PIPE, env=ENV)
+    import shutil
+    shutil.rmtree(d, ignore_errors=True)
+    if p.returncode != 0:
+        raise MachineryError("rustc -Zunpretty=expanded failed: " + p.stderr.decode(errors="replace")[-1500:])
+    return p.stdout.decode(errors="replace")
+
+
+def conformance(decl_texts):
+    """Compare E1's expansion (proc_macro2 fallback) with the compiler-backed expansion, token by token
+    after normalisation. Returns list of (ok, detail)."""
+    import concurrent.futures as cf
+    e1_out = expand_many(decl_texts)
+    nightly_dylib()
+    with cf.ThreadPoolExecutor(max_workers=16) as ex:
+        reals = list(ex.map(real_expansion, decl_texts))
+    # the derive's output starts at the inherent impl; everything before is the prelude + the enum itself
+    cut = []
+    for r in reals:
+        i = r.find("impl E where")
+        cut.append(r[i:] if i >= 0 else r)
+    flat_in = []
+    for (st, body), r in zip(e1_out, cut):
+        flat_in.append(body if st == "OK" else "")
+        flat_in.append(r)
+    fl = expand_many([t if t.strip() else "x" for t in flat_in], mode="flat")
+    res = []
+    for i in range(len(decl_texts)):
+        a, b = fl[2 * i], fl[2 * i + 1]
+        if e1_out[i][0] != "OK":
+            res.append((False, "E1 did not accept: %s" % e1_out[i][1][:200]))
+            continue
+        if a[0] != "OK" or b[0] != "OK":
+            res.append((False, "flatten failed: %s / %s" % (a[1][:200], b[1][:200])))
+            continue
+        ta, tb = a[1].split("\n"), b[1].split("\n")
+        if ta == tb:
+            res.append((True, len(ta)))
+        else:
+            k = next((j for j in range(min(len(ta), len(tb))) if ta[j] != tb[j]), min(len(ta), len(tb)))
+            res.append((False, "token %d differs: E1 …%s… vs rustc …%s…" % (k, " ".join(ta[max(0, k - 6):k + 4]), " ".join(tb[max(0, k - 6):k + 4]))))
+    return res
